@@ -699,6 +699,43 @@ func c09GettersAndBatches(c *fw.Ctx) {
 			c.Class(fmt.Sprintf("batch:%d", k))
 		}
 	}
+	// corrections: the application answers a controller's write from inside its remote-update callback by setting
+	// another value (e.g. the nearest one the hardware supports). What the application set last is what counts: the
+	// getter, a following read and /accessories show the corrected value.
+	for _, cc := range s.chars {
+		ch := cc.Ch
+		vals := c09Values(ch)
+		if !ch.IsWritable() || !ch.IsReadable() || len(vals) < 2 {
+			continue
+		}
+		c.Eval(1)
+		written, corrected := vals[1], vals[0]
+		if reflect.DeepEqual(ch.Value, written.V) {
+			ch.UpdateValue(corrected.V)
+		}
+		cas := c09Case{Kind: "getter", Ctor: cc.Name, Value: "corrected:" + written.Label + "→" + corrected.Label}
+		active := true
+		ch.OnValueUpdateFromConn(func(_ net.Conn, _ *characteristic.Characteristic, nv, _ interface{}) {
+			if active && reflect.DeepEqual(nv, written.V) {
+				ch.UpdateValue(corrected.V)
+			}
+		})
+		jv, _ := json.Marshal(written.V)
+		m, _, err := s.k.Do("PUT", "/characteristics", refctl.CTJSON, []byte(fmt.Sprintf(`{"characteristics":[{"aid":%d,"iid":%d,"value":%s}]}`, cc.Acc.ID, ch.ID, jv)))
+		active = false
+		if err != nil || m.Status/100 != 2 {
+			c.Report("corrected-write-failed/"+ch.Format, fmt.Sprintf("%s: PUT fails: %v %v", cc.Name, m, err), cas)
+			continue
+		}
+		if !reflect.DeepEqual(ch.Value, corrected.V) {
+			c.Report("correction-lost/"+ch.Format, fmt.Sprintf("%s: the application set %v from inside its remote-update callback (the controller had written %v); afterwards the value is %v", cc.Name, string(trunc([]byte(fmt.Sprint(corrected.V)), 30)), string(trunc([]byte(fmt.Sprint(written.V)), 30)), string(trunc([]byte(fmt.Sprint(ch.Value)), 30))), cas)
+			continue
+		}
+		if es, ok := c09Get(c, s, [][2]uint64{{cc.Acc.ID, ch.ID}}, cas, "after-correction"); ok && !c09Same(es[0].Value, corrected.V) {
+			c.Report("correction-not-read/"+ch.Format, fmt.Sprintf("%s: the controller reads %v after the application corrected its write to %v", cc.Name, es[0].Value, corrected.V), cas)
+		}
+		c.Class("correction:" + ch.Format)
+	}
 }
 
 func c09Run(c *fw.Ctx) {
@@ -1108,7 +1145,7 @@ func init() {
 	fw.Register(&fw.Check{
 		ID:     "C09",
 		Level:  "exploration",
-		Rule:   "real transport over TCP with a verified independent controller; accessories assembled from EVERY characteristic constructor found in /repo. (A) every constructor × the boundary alphabet of its format inside its bounds (min, min+step, mid, max−step, max; booleans; strings: empty, ASCII, quotes/backslashes, HTML characters, non-BMP runes, control characters, 1 KiB, 3000 bytes; base64 payloads of 0/1/300/5000 bytes): application-set value read by single id, in an id list and in /accessories; controller-written value compared with the typed getter and the remote-update callback. (B) id-list shapes [e] [ne] [e,ne] [ne,e] [e,e] [e1,e2,e3] [50 ids] [write-only] …: each id answered once, in order, with a value or a non-zero status, multi-status ⇒ every entry has a status. (C) response body length sweep: every string length 0..4200 (quick) / 0..9000 (thorough), walking every residue of the 2048-byte chunker, net/http's 4096-byte writer and the 1024-byte frame. (D) databases of 8, 9, 17, 57 (thorough 157) accessories. (E) overlapping responses of two verified controllers, the interleaving forced by flow control (one stops reading inside a response of 5000 / 6000 bytes / 12 MiB with fixed 64 KiB receive buffers while the other completes a request), both orders. After every controller write the value is read back by id and in /accessories. (F) every readable constructor with an application read callback (OnValueGet) returning each value of its alphabet; PUT requests writing 2, 3, 5, 16 and all writable characteristics with different values at once. distinct_nontrivial = distinct (operation, format / shape / frame count) classes Values are set through the typed setter of the constructor's type and through UpdateValue in turn, and the typed remote-update callback (func(int), func([]byte), …) of every constructor must receive exactly the written value once. Plus, in a subprocess built with a scheduling point before EVERY statement of hc's packages (textual insertion through go build -overlay): every interleaving with at most 1 (thorough 2) preemptions of pairs of operations on disjoint objects — and, where the property is about served requests, of pairs of handlers on two verified connections of one accessory touching different characteristics — each side must observe exactly what it observes when the two run one after the other (module-level mutable state is what makes them differ). Added later: booleans are written as true / false and as 1 / 0; PUT entries carry the value alone or together with ev (three member orders) and with the specification's other members (remote, authData, r); every GET id list of length ≤3 (thorough ≤4) over {two readable of one accessory, one of another, unknown accessory, unknown instance id, write-only} with a strict per-entry oracle (value xor error status); every PUT list of length ≤3 (≤4) over known and unknown ids in every position (each existing target gets exactly its value); every other worker and a second pass of the id lists run on a bridge whose accessory ids the application chose (2, 2^32+2, 2^40+2, 2^63+2, 3, …).",
+		Rule:   "real transport over TCP with a verified independent controller; accessories assembled from EVERY characteristic constructor found in /repo. (A) every constructor × the boundary alphabet of its format inside its bounds (min, min+step, mid, max−step, max; booleans; strings: empty, ASCII, quotes/backslashes, HTML characters, non-BMP runes, control characters, 1 KiB, 3000 bytes; base64 payloads of 0/1/300/5000 bytes): application-set value read by single id, in an id list and in /accessories; controller-written value compared with the typed getter and the remote-update callback. (B) id-list shapes [e] [ne] [e,ne] [ne,e] [e,e] [e1,e2,e3] [50 ids] [write-only] …: each id answered once, in order, with a value or a non-zero status, multi-status ⇒ every entry has a status. (C) response body length sweep: every string length 0..4200 (quick) / 0..9000 (thorough), walking every residue of the 2048-byte chunker, net/http's 4096-byte writer and the 1024-byte frame. (D) databases of 8, 9, 17, 57 (thorough 157) accessories. (E) overlapping responses of two verified controllers, the interleaving forced by flow control (one stops reading inside a response of 5000 / 6000 bytes / 12 MiB with fixed 64 KiB receive buffers while the other completes a request), both orders. After every controller write the value is read back by id and in /accessories. (F) every readable constructor with an application read callback (OnValueGet) returning each value of its alphabet; PUT requests writing 2, 3, 5, 16 and all writable characteristics with different values at once. distinct_nontrivial = distinct (operation, format / shape / frame count) classes Values are set through the typed setter of the constructor's type and through UpdateValue in turn, and the typed remote-update callback (func(int), func([]byte), …) of every constructor must receive exactly the written value once. Plus, in a subprocess built with a scheduling point before EVERY statement of hc's packages (textual insertion through go build -overlay): every interleaving with at most 1 (thorough 2) preemptions of pairs of operations on disjoint objects — and, where the property is about served requests, of pairs of handlers on two verified connections of one accessory touching different characteristics — each side must observe exactly what it observes when the two run one after the other (module-level mutable state is what makes them differ). Added later: the application corrects a controller's write from inside its remote-update callback (the corrected value is what getter and reads show); booleans are written as true / false and as 1 / 0; PUT entries carry the value alone or together with ev (three member orders) and with the specification's other members (remote, authData, r); every GET id list of length ≤3 (thorough ≤4) over {two readable of one accessory, one of another, unknown accessory, unknown instance id, write-only} with a strict per-entry oracle (value xor error status); every PUT list of length ≤3 (≤4) over known and unknown ids in every position (each existing target gets exactly its value); every other worker and a second pass of the id lists run on a bridge whose accessory ids the application chose (2, 2^32+2, 2^40+2, 2^63+2, 3, …).",
 		Shards: func(string) int { return 16 },
 		Run:    c09Run,
 		Replay: func(c *fw.Ctx, raw json.RawMessage) {
